@@ -237,7 +237,11 @@ def run_rot(ctx, cases):
                         cdis = True
                         break
             cond = sum(abs(w) * abs(Fraction(c.data[idx])) for idx, w in ent)
-            tol = Fraction(48, 2 ** 24) * max(cond, 1)
+            # the float weights carry an ABSOLUTE error of a few 2^-24 (1 - f*f for f near 1 cancels: relative to the
+            # weight the error is unbounded), and each is multiplied by its data value: 16*2^-24*Sum|data_j| over the
+            # stencil in addition to the relative part
+            cond2 = sum(abs(Fraction(c.data[idx])) for idx, w in ent if not (idx == 0 and w == 0))
+            tol = Fraction(48, 2 ** 24) * max(cond, 1) + Fraction(16, 2 ** 24) * cond2
             if isinstance(iout[g], str) or abs(iout[g] - mout[g]) > tol:
                 if not cdis:
                     dis.append(dict(case=c.replay(), detail=dict(point=g, impl=str(iout[g]), model=str(mout[g]), tol=str(tol)),
